@@ -75,7 +75,11 @@ class NgramSpec(Spec):
     name = "ngram"
 
     def configs(self, tier):
-        return [{"ngram_size": n, "ngram_behaviour": b} for n in (1, 2) for b in ("exact", "subgrams")]
+        base = [{"ngram_size": n, "ngram_behaviour": b} for n in (1, 2) for b in ("exact", "subgrams")]
+        # pairs of settings: n-gram size with a pruning bound, a supplied vocabulary whose order is not alphabetical
+        return base + [{"ngram_size": 2, "ngram_behaviour": "exact", "min_occurrences": 2},
+                       {"ngram_size": 1, "ngram_behaviour": "exact", "token_dictionary": {"b": 0, "a": 1}},
+                       {"ngram_size": 2, "ngram_behaviour": "exact", "token_dictionary": {"c": 0, "a": 1, "b": 2}}]
 
     def make(self, cfg):
         import vectorizers as V
@@ -129,7 +133,8 @@ class LZSpec(Spec):
         return [{"max_columns": None, "max_dict_size": 65536}, {"max_columns": None, "max_dict_size": 3},
                 {"max_columns": None, "max_dict_size": 65536, "base_dictionary": {"a": 1, "b": 1}},
                 # a base dictionary that already fills the phrase dictionary: nothing can be added, only counts change
-                {"max_columns": None, "max_dict_size": 2, "base_dictionary": {"a": 1, "b": 1}}]
+                {"max_columns": None, "max_dict_size": 2, "base_dictionary": {"a": 1, "b": 1}},
+                {"max_columns": None, "max_dict_size": 3, "base_dictionary": {"a": 1}}]
 
     def make(self, cfg):
         import vectorizers as V
@@ -154,7 +159,9 @@ class BPESpec(Spec):
     name = "bpe"
 
     def configs(self, tier):
-        return [{"return_type": rt, "max_vocab_size": m} for rt in ("sequences", "tokens", "matrix") for m in (2, 10000)]
+        base = [{"return_type": rt, "max_vocab_size": m} for rt in ("sequences", "tokens", "matrix") for m in (2, 10000)]
+        return base + [{"return_type": "matrix", "max_vocab_size": 3, "min_token_occurrence": 2},
+                       {"return_type": "sequences", "max_vocab_size": 10000, "min_token_occurrence": 2}]
 
     def make(self, cfg):
         import vectorizers as V
